@@ -170,10 +170,13 @@ def pass_case(ctx, rng, k):
     # on every other POD pass without usable TLE the clock-drift correction runs first: it is the first to ask for the
     # element set (and is skipped), the angle computation asks again
     drift_first = tle == "stale" and fam == "pod" and (k // len(combos)) % 2 == 0
+    # the age limit is a number of days, whole or not (7, 7.0, 2.5 ...): the fallback must be taken for every spelling
+    thresh = [7, 7.0, 2.5, 7.5][k % 4]
     r = filegen.reader_class(fmt)(tle_dir=tdir, tle_name="TLE_%(satname)s.txt", interpolate_coords=interp,
-                                  adjust_clock_drift=drift_first)
+                                  adjust_clock_drift=drift_first, tle_thresh=thresh)
     r.read(b.dsname, fileobj=io.BytesIO(data))
-    payload = {"fmt": fmt, "start": start, "n": n, "interp": interp, "tle": tle, "flagged": flagged.tolist(), "stream": "pass"}
+    payload = {"fmt": fmt, "start": start, "n": n, "interp": interp, "tle": tle, "flagged": flagged.tolist(), "stream": "pass",
+               "tle_thresh": thresh}
     try:
         with warnings.catch_warnings():
             warnings.simplefilter("ignore")
